@@ -15,6 +15,10 @@ Lemma world1_filters_ignore_state tpls comps n v k sc sc' :
   w_filter (World1.world1 tpls comps) n v k sc = w_filter (World1.world1 tpls comps) n v k sc'.
 Proof. reflexivity. Qed.
 
+Lemma world1_functions_ignore_state tpls comps n k sc sc' :
+  w_function (World1.world1 tpls comps) n k sc = w_function (World1.world1 tpls comps) n k sc'.
+Proof. reflexivity. Qed.
+
 Theorem compile_correct_world1 :
   forall (lib : list tdef) (comps : list (str * (comp_def * list instr)))
          (name : str) (t : tdef) (cx glob : ctx) (w : str),
@@ -30,6 +34,7 @@ Proof.
   intros lib comps name t cx glob w Hnd Hwf Hf wd.
   apply (compile_correct str World1.wr_str1 (@app N) (fun _ _ => eq_refl) (fun w a b => eq_sym (app_assoc w a b))
            (@app_nil_r N) wd (world1_as_key_str _ comps) (world1_filters_ignore_state _ comps)
+           (world1_functions_ignore_state _ comps)
            lib name t cx glob w);
     [|exact Hwf|exact Hf].
   apply world_has_of_map; [exact Hnd|reflexivity].
